@@ -22,6 +22,14 @@ RecOK(r) ==
        [] r.fn = "isub" -> r.got = <<r.a.kind, KeysOnly(KeySet(r.a) \ KeySet(r.b))>>
        [] r.fn = "ixor" -> r.got = XorSpec(r.a, r.b)
        [] r.fn = "isdisjoint" -> r.got = DisjointSpec(r.a, r.b)
+       \* reflected operators (a plain iterable on the left): rejected with TypeError, or the mathematical result
+       [] r.fn \in {"ror", "rand", "rsub", "rxor"} ->
+            \/ r.got[1] = "exc" /\ r.got[2] = "TypeError"
+            \/ /\ r.got[1] # "exc" /\ Len(r.got) = 2
+               /\ r.got[2] = KeysOnly(CASE r.fn = "ror"  -> KeySet(r.a) \cup KeySet(r.b)
+                                        [] r.fn = "rand" -> KeySet(r.a) \cap KeySet(r.b)
+                                        [] r.fn = "rsub" -> KeySet(r.a) \ KeySet(r.b)
+                                        [] r.fn = "rxor" -> (KeySet(r.a) \ KeySet(r.b)) \cup (KeySet(r.b) \ KeySet(r.a)))
        [] r.fn = "wunion" -> r.got = WUnionSpec(r.a, r.b, r.w1, r.w2, r.one)
        [] r.fn = "winter" -> r.got = WInterSpec(r.a, r.b, r.w1, r.w2, r.one)
 JOK == RecOK(Recs[i]) \/ (PrintT(<<"BAD", ToJson(i)>>) = FALSE)
